@@ -17,7 +17,8 @@
      (shift case of add_loop) parser.rs parse_rest_of_bitshift_operation
      parse_multiplication, mul_loop ... parser.rs parse_multiplication
      parse_singular, as_loop .......... parser.rs parse_singular_expression
-     parse_unary ............ parser.rs parse_unary_expression
+     parse_unary ............ parser.rs parse_unary_expression (as of commit 4639ff7: `-` also
+                              folds a bit literal of value 2^127 into the signed literal i128::MIN)
      parse_primary .......... parser.rs parse_primary_expression
      expr_list .............. parser.rs parse_arguments / parse_rest_of_array (loop part)
      members_loop ........... parser.rs parse_body_of_structural (loop part)
@@ -128,6 +129,7 @@ Definition name_return : name := 0%N.
 Definition MAX_ADDRESS_DEPTH : N := 127%N.
 Definition MAX_REFERENCE_DEPTH : nat := 127%nat.
 Definition i128_max : Z := (2 ^ 127 - 1)%Z.
+Definition i128_min_abs : Z := (2 ^ 127)%Z.
 Definition u128_lim : Z := (2 ^ 128)%Z.
 Definition usize_lim : Z := (2 ^ 64)%Z.
 
@@ -531,6 +533,11 @@ with parse_unary (f : nat) (nb : bool) (ts : list tok) {struct f}
         | Some (ESigned v t, ts1) =>
             if (0 <? v)%Z then Some (ESigned (- v) t, ts1)
             else Some (EUnary Negative (ESigned v t), ts1)
+        | Some (EBits v t, ts1) =>
+            (* commit 4639ff7: the magnitude of i128::MIN only fits a bit literal,
+               whatever its spelling or suffix *)
+            if (v =? i128_min_abs)%Z then Some (ESigned (- i128_min_abs) t, ts1)
+            else Some (EUnary Negative (EBits v t), ts1)
         | Some (e, ts1) => Some (EUnary Negative e, ts1)
         | None => None
         end
@@ -1451,11 +1458,21 @@ Fixpoint redge (nb : bool) (e : expr) (k : tkind) : bool :=
 Definition estop (nb : bool) (e : expr) (k : tkind) : bool :=
   redge nb e k && top_stop nb e k.
 
+(* A literal that parse_unary_expression folds into a negative literal. *)
 Definition is_pos_signed (e : expr) : bool :=
-  match e with ESigned v _ => (0 <? v)%Z | _ => false end.
+  match e with
+  | ESigned v _ => (0 <? v)%Z
+  | EBits v _ => (v =? i128_min_abs)%Z
+  | _ => false
+  end.
 
 Definition lit_type_ok_signed (t : option prim) : bool :=
   match t with None => true | Some p => prim_signed p end.
+
+(* The suffix of `-2^127` written with a suffix is kept whatever it is
+   (`-170141183460469231731687303715884105728u8` is a signed literal of type u8). *)
+Definition lit_type_ok_min (t : option prim) : bool :=
+  match t with Some Char8 | Some Bool => false | _ => true end.
 
 Definition lit_type_ok_bits (v : Z) (t : option prim) : bool :=
   match t with
@@ -1490,7 +1507,9 @@ Fixpoint wf_expr (nb : bool) (e : expr) : bool :=
       wf_expr nb e && (lvl e =? 0)%nat &&
       match op with Negative => negb (is_pos_signed e) | BitwiseComplement => true end
   | EBool _ => true
-  | ESigned v t => (- i128_max <=? v)%Z && (v <=? i128_max)%Z && lit_type_ok_signed t
+  | ESigned v t =>
+      ((- i128_max <=? v)%Z && (v <=? i128_max)%Z && lit_type_ok_signed t)
+      || ((v =? - i128_min_abs)%Z && lit_type_ok_min t)
   | EBits v t => (0 <=? v)%Z && (v <? u128_lim)%Z && lit_type_ok_bits v t
   | EString bs => forallb (fun b => (b <? 256)%N) bs
   | EArray es => forallb (wf_expr nb) es
